@@ -455,7 +455,23 @@ CASES = dict(ode=case_ode, statio=case_statio, nonstatio=case_nonstatio, obs=cas
 
 
 def run_case(cfg):
-    return CASES[cfg["kind"]](cfg)
+    """an exception raised INSIDE jinns while a case runs is a datum (the generator raised on a legal history), an exception of the
+    harness itself is a crash of the driver"""
+    import os
+    import traceback
+
+    try:
+        return CASES[cfg["kind"]](cfg)
+    except Exception as ex:  # noqa
+        frames = traceback.extract_tb(ex.__traceback__)
+        in_code = frames and os.sep + "jinns" + os.sep in frames[-1].filename and "/verif/" not in frames[-1].filename
+        jax_after_code = any(os.sep + "jinns" + os.sep in f.filename for f in frames[-12:]) and "site-packages" in frames[-1].filename
+        if not (in_code or jax_after_code):
+            raise
+        tr = _trace(cfg, cfg["kind"], cfg.get("dim", 1), cfg.get("cart", True))
+        where = next((f"{os.path.basename(f.filename)}:{f.lineno}" for f in reversed(frames) if os.sep + "jinns" + os.sep in f.filename), "?")
+        tr["exc"] = f"GeneratorRaised at {where}: {type(ex).__name__}: {str(ex)[:120]}"
+        return tr
 
 
 # ---- generators as advanced BY jinns.solve (hook H2): one draw before the loop (probe) + one draw per iteration ----------
